@@ -224,6 +224,15 @@ def render(case):
         scratch = BufferedIO(formatter=PlainFormatter())
         scratch.set_terminal_dimensions(Rectangle(120, 24))
         other.render(scratch, 0)
+    if isinstance(twice, (list, tuple)) and twice[0] == "other-indent":
+        # P3: an equal table (own Table / TableStyle / IO objects) has been rendered with ANOTHER indentation before
+        twin = Table(make_style(style, aligns))
+        if hdr is not None:
+            twin.set_header_row(list(hdr))
+        twin.add_rows([list(r) for r in rows])
+        scratch = BufferedIO(formatter=AnsiFormatter(forced=True) if ansi else PlainFormatter())
+        scratch.set_terminal_dimensions(Rectangle(width + twice[1], 24))
+        twin.render(scratch, ind + twice[1])
     table = Table(the_style)
     if isinstance(twice, (list, tuple)):
         # P3: the table is reached by an edit of a table that has already been rendered once
@@ -668,6 +677,7 @@ def expand(block, seed):
         aligns = tuple((rot + c) % 3 for c in range(n))
         edits = [("set_row", 0), ("set_row", nrows - 1), ("add_row",), ("set_rows",)] + ([("set_header_row",)] if header else [])
         edits += [("style-shared", n + 2)] + ([("style-shared", n - 1)] if n > 1 else [])
+        edits += [("other-indent", 4)]
         for style, ind in P1_STYLE_IND:
             lo = min_width(style, ind, n)
             for w in [lo + 3 * n, 80][:wmode]:
